@@ -42,11 +42,25 @@ class SimRHS(object):
         val = self.problem.f(t, y, **kw)
         if flt is not None and flt["kind"] == "spike":
             w.fire(flt)
-            val = val + np.asarray(flt.get("amp", 1e3), dtype=val.dtype) * (1.0 + np.abs(val))
+            if flt.get("amp") == "nan":
+                val = val * np.asarray(np.nan, dtype=val.dtype)          # the model leaves its domain for a while: non-finite slopes
+            else:
+                val = val + np.asarray(flt.get("amp", 1e3), dtype=val.dtype) * (1.0 + np.abs(val))
         self.completed += 1
         w.rhs_completed += 1
         if rec is not None:
             rec["done"] = True
+        if w.scn["system"].get("rhs_buffer"):
+            # a right-hand side program that owns its output array: allocated once, entries rewritten only when their value changes
+            # (constant entries are set once), and the SAME array is returned by every call
+            if getattr(self, "_buf", None) is None or self._buf.shape != val.shape or self._buf.dtype != val.dtype:
+                self._buf = np.array(val, copy=True)
+                self._last = np.array(val, copy=True)
+            else:
+                changed = ~((val == self._last) | (np.isnan(val) & np.isnan(self._last)))
+                self._buf[changed] = val[changed]
+                self._last = np.array(val, copy=True)
+            return self._buf
         return val
 
 
